@@ -193,9 +193,10 @@ def do(r, o, sym, water, salt):
     elif sym == 'csA':
         r.create_solution(salt, water, name='A', concentration='1 M', total_quantity='1 mL')
     elif sym == 'csSolvA':
-        r.create_solution(salt, A, name='SA', concentration='2 M', total_quantity='1 mL')
+        # (a solute the solvent container does not hold: one it holds is refused when the step is carried out)
+        r.create_solution(type(salt).solid('KCl', 74.5513), A, name='SA', concentration='2 M', total_quantity='1 mL')
     elif sym == 'csSolvX':
-        r.create_solution(salt, X, name='SX', concentration='2 M', total_quantity='1 mL')
+        r.create_solution(type(salt).solid('KCl', 74.5513), X, name='SX', concentration='2 M', total_quantity='1 mL')
     elif sym == 'csfA':
         r.create_solution_from(A, salt, '0.1 M', water, '1 mL', name='FA')
     elif sym == 'csfX':
